@@ -293,7 +293,9 @@ func (kc *Cache[V]) Expire(out []Entry[V], now time.Time) []Entry[V] {
 	defer kc.mu.Unlock()
 	for _, b := range kc.buckets {
 		if b.minExpiresAt.Before(now) {
+			n := len(out)
 			out = b.expire(out, now)
+			kc.count -= len(out) - n
 		}
 	}
 	return out
